@@ -75,6 +75,10 @@ func leaves(tag string, n int) []frag {
 		{Name: "synthetic-ifexpr", Src: `synthetic if(req.http.C3, "sa", "sb");`, Uses: inC3, Scope: "error"},
 		{Name: "synthetic64-ifexpr", Src: `synthetic.base64 if(req.http.C3, "c2E=", "c2I=");`, Uses: inC3, Scope: "error"},
 		{Name: "goto-end", Src: trace(tag) + ` goto done;`},
+		// an if() nested in a result of another if(): its condition (with a capture) must only be evaluated when the outer one selects it
+		{Name: "ifexpr-nested-regex", Src: `set req.http.V = if(req.http.C2, if(req.http.C3 ~ "^(1)", "m", "n"), "p"); set req.http.G = "after " re.group.1;`, Uses: inC2 | inC3},
+		{Name: "ifexpr-nested-regex-else", Src: `set req.http.V = if(req.http.C2, "p", if(req.http.C3 ~ "^(1)", "m", "n")); set req.http.G = "after " re.group.1;`, Uses: inC2 | inC3},
+		{Name: "ifexpr-in-call-arg-nested", Src: `set req.http.V = std.toupper(if(req.http.C2, "p", if(req.http.C3 ~ "^(1)", "m", "n"))); set req.http.G = "after " re.group.1;`, Uses: inC2 | inC3},
 	}
 }
 
